@@ -72,6 +72,11 @@ def verify_function(eng, qualname):
                 res = coerce(eng, s, res, c.returns, qualname + ':result')
             env = dict(f.entry_env)
             env['result'] = res
+            # ghost out-parameters: locals exposed to the postcondition under another name
+            for gname, local in (c.ghost.get('returns') or {}).items():
+                if local not in s.env:
+                    raise ContractError("%s: ghost return %s: no local named %s at return" % (qualname, gname, local))
+                env[gname] = s.env[local]
             for label, clause in c.labelled(c.ensures, 'post'):
                 t = eval_bool(eng, clause, env, s, old=old)
                 eng.oblige(s, "post:%s" % label, 'post', t, fdef)
